@@ -62,6 +62,12 @@ def checkCase (j : Json) : Except String Verdict := do
       some { user := strD sess "user", email := strD sess "email", groups := strD sess "groups", accessToken := none } else none
     let forwarded := skip || genuine
     v := v.cmp idx "forwarded" forwarded (!recv.isNull) ["C01", "C03"]
+    if !forwarded && !recv.isNull then
+      -- reached the upstream although neither a skip-auth path nor the session cookie (by its exact name) was presented
+      v := v.mon "C01" "upstream_without_session" idx
+      let rc := hget (hmapOf (getJ recv "headers")) "Cookie"
+      if rc.any (fun l => (l.toLower.splitOn "_sso_proxy=").length > 1) then
+        v := v.mon "C03" "session_cookie_never_forwarded" idx s!"{rc}"
     if !forwarded || recv.isNull then
       idx := idx + 1; continue
     v := { v with nontrivial := true }
